@@ -127,6 +127,45 @@ TMcheck ==
             \cup (IF e.pan = "" /\ e.remarshal # 1 THEN {"remarshal-differs"} ELSE {})
             \cup (IF e.pan = "" /\ e.protomarshal # 1 THEN {"proto.Marshal-differs"} ELSE {}))
 
+\* SlimIndex = trie (default options, 64-bit offsets as values) composed with a
+\* reader that returns the record only if the block at the offset holds the key.
+\* e.ans[j] = <<found, record number>>; records are numbered like the keys.
+IndexBad(e) ==
+  LET n == Len(e.keys)
+      nq == Len(e.qs)
+      wb == {j \in 1..nq :
+               LET f == e.fp[j] IN
+               ~ /\ f \in 0..n
+                 /\ (f = 0 \/ Le(e.keys[f], e.qs[j]))
+                 /\ (f = n \/ Lt(e.qs[j], e.keys[f + 1]))}
+      IsRec(j) == e.fp[j] > 0 /\ e.keys[e.fp[j]] = e.qs[j]
+  IN [witness |-> wb,
+      build   |-> IF e.err # "" \/ e.pan # "" THEN {1} ELSE {},
+      \* an exact map: the stored record for every indexed key, not-found otherwise
+      exact   |-> IF wb # {} \/ e.err # "" THEN {} ELSE
+                  {j \in 1..nq : e.ans[j] # (IF IsRec(j) THEN <<1, e.fp[j]>> ELSE <<0, 0>>)}]
+\* Layer M: the Model trie followed by the Model reader
+IndexDrift(e) ==
+  LET n == Len(e.keys)
+      nodes == BuildNodes(e.keys, e.offs, TRUE, TRUE, TRUE)
+      o == [innp |-> FALSE, leafp |-> FALSE]
+      Reader(off, q) == LET hits == {i \in 1..n : e.offs[i] = off /\ e.keys[i] = q} IN
+                        IF hits = {} THEN <<0, 0>> ELSE <<1, CHOOSE i \in hits : TRUE>>
+  IN {j \in 1..Len(e.qs) :
+        LET g == IF e.mode = "get" THEN ModelGet(e.keys, nodes, o, e.offs, TRUE, e.qs[j])
+                 ELSE ModelRangeGet(e.keys, nodes, o, e.offs, TRUE, e.qs[j])
+        IN e.ans[j] # (IF g[1] = 0 THEN <<0, 0>> ELSE Reader(g[2], e.qs[j]))}
+
+TIndex ==
+  /\ Ev("index")
+  /\ inst' = NoInst
+  /\ LET e == Trace[l]
+         b == IndexBad(e) IN
+     /\ Report(l, "W:floor", b.witness)
+     /\ Report(l, "P:C12:build", b.build)
+     /\ Report(l, "P:C12:exact", b.exact)
+     /\ (LayerM /\ e.err = "" /\ e.pan = "") => Report(l, "M:index", IndexDrift(e))
+
 TModes ==
   /\ Ev("modes")
   /\ inst' = NoInst
@@ -139,7 +178,7 @@ TModes ==
      /\ Report(l, "P:C13:onkeys", b.onkeys)
      /\ LayerM => Report(l, "M:modes", ModesDrift(e))
 
-TNext == UNCHANGED iters /\ (TNew \/ TTable \/ TTableErr \/ TStat \/ TObsK \/ TObsQ \/ TLoad \/ TModes \/ TRender \/ TMcheck)
+TNext == UNCHANGED iters /\ (TNew \/ TTable \/ TTableErr \/ TStat \/ TObsK \/ TObsQ \/ TLoad \/ TModes \/ TRender \/ TMcheck \/ TIndex)
 
 \* every line consumed: l - 1 = Len(Trace) in the last state
 Accepted == TLCGet("stats").diameter - 1 = Len(Trace)
